@@ -17,7 +17,7 @@ def Frame.scopeLike : Frame → Bool
 
 /-- the minimum alignment in force just outside a region, given the one in force inside -/
 def Frame.below : Frame → Nat → Nat
-  | .alignedLower o, _ => o
+  | .alignedLower o _, _ => o
   | .alignedRaise o, _ => o
   | .scopedAligned _ o, _ => o
   | _, ma => ma
@@ -91,15 +91,16 @@ theorem fs_scopedAlignedExit {g g' : GState} {out : Out}
 theorem fs_alignedEnter {g g' : GState} {out : Out} {n : Nat}
     (hs : stepCore cfg g (.alignedEnter n) = .ok (g', out)) : FrameStep g g' := by
   fs_op hs
-  · exact FrameStep.push (.alignedLower _) rfl rfl rfl (ChunksCov.refl _)
+  · exact FrameStep.push (.alignedLower _ _) rfl rfl rfl (ChunksCov.refl _)
   · rename_i v hv
     exact FrameStep.push (.alignedRaise _) rfl rfl rfl (tr_alignTo hv).cov
 
 theorem fs_alignedExit {g g' : GState} {out : Out}
     (hs : stepCore cfg g .alignedExit = .ok (g', out)) : FrameStep g g' := by
   fs_op hs
-  · rename_i v hv
-    exact FrameStep.pop (.alignedLower _) 0 (by assumption) rfl rfl (tr_alignGuardDrop hv).cov
+  · rename_i v1 hv1 _ v hv
+    exact FrameStep.pop (.alignedLower _ _) 0 (by assumption) rfl rfl
+      ((tr_alignGuardDrop hv1).cov.trans (tr_alignChunkAt hv).cov)
   · exact FrameStep.pop (.alignedRaise _) 0 (by assumption) rfl rfl (ChunksCov.refl _)
 
 theorem fs_scopedAlignedEnter {g g' : GState} {out : Out} {n : Nat}
